@@ -443,6 +443,8 @@ def m_apply(ms, op):
         if what == "add":
             if cat not in out.ann:
                 out.ann[cat] = [{"int": 0, "float": 0.0, "float32": 0.0, "bool": False, "str": ""}[CAT_TYPES[cat]]] * m.n
+            elif op.get("dt") == "incompatible":
+                raise Reject(("ValueError",))
         elif what in ("set", "attr"):
             vals = op["values"]
             if what == "attr" and cat not in out.ann:
@@ -734,6 +736,12 @@ def generate(rng):
                 what = rng.choice(["add", "set", "attr", "del", "set"])
                 cat = rng.choice(list(EXTRA) + (list(m.ann) if what != "del" else [c for c in m.ann if c not in MANDATORY] or ["uid"]))
                 op = {"op": "annot", "r": a, "what": what, "cat": cat}
+                if what == "add" and cat in m.ann and rng.random() < 0.6:
+                    # add_annotation() on an existing category: documented to choose a dtype that is also able to
+                    # represent the old values (wider: converted; narrower: kept; neither: ValueError)
+                    op["dt"] = rng.choice(["wider", "wider", "narrower", "incompatible"])
+                    if op["dt"] == "incompatible" and CAT_TYPES[cat] == "str":
+                        op["dt"] = "wider"
                 if what in ("set", "attr"):
                     nn = m.n if not (faulty and rng.random() < 0.25) else m.n + rng.choice([1, 2])
                     op["values"] = [gen_value(rng, cat, CAT_TYPES[cat], wide=True) for _ in range(nn)]
@@ -1091,6 +1099,15 @@ class Sim:
                         dtype = np_annot(cat, [""]).dtype
                     else:
                         dtype = {"int": int, "float": float, "float32": np.float32, "bool": bool}[t]
+                    if op.get("dt") and cat in obj.get_annotation_categories():
+                        if op["dt"] == "wider":
+                            dtype = {"int": np.float64, "float": np.float64, "float32": np.float64, "bool": np.int64}.get(t)
+                            if t == "str":
+                                dtype = np.dtype(f"U{obj.get_annotation(cat).dtype.itemsize // 4 + 6}")
+                        elif op["dt"] == "narrower":
+                            dtype = {"int": np.int8, "float": np.float32, "float32": np.float16, "bool": bool, "str": np.dtype("U1")}[t]
+                        else:
+                            dtype = np.dtype("U1")
                     obj.add_annotation(cat, dtype=dtype)
                 elif what == "set":
                     obj.set_annotation(cat, natural_annot(cat, op["values"], cat in obj.get_annotation_categories()))
